@@ -44,6 +44,7 @@ var _ imap.UID // used by //@ func headers
 // the run is empty): assumed together with the callback discipline.
 //
 //@ func (dec *Decoder) Func(ptr *string, valid func(ch byte) bool) (result bool)
+//@   modifies ptr
 //@   ensures result ==> len(*ptr) > 0
 //@   props C02:post,pre@call C04:post,pre@call C05:post,pre@call C06:bounds,assert-type,div0,panic-unreachable,pre@call
 //@   trusted
@@ -71,10 +72,12 @@ var _ imap.UID // used by //@ func headers
 //@   ensures !result ==> dec.err != nil
 
 //@ func (dec *Decoder) ExpectAtom(ptr *string) (result bool)
+//@   modifies ptr
 //@   ensures !result ==> dec.err != nil
 //@   ensures result ==> len(*ptr) > 0
 
 //@ func (dec *Decoder) Atom(ptr *string) (result bool)
+//@   modifies ptr
 //@   ensures result ==> len(*ptr) > 0
 
 //@ func (dec *Decoder) ExpectNIL() (result bool)
@@ -84,33 +87,43 @@ var _ imap.UID // used by //@ func headers
 //@   ensures !result ==> dec.err != nil
 
 //@ func (dec *Decoder) ExpectText(ptr *string) (result bool)
+//@   modifies ptr
 //@   ensures !result ==> dec.err != nil
 
 //@ func (dec *Decoder) ExpectNumber(ptr *uint32) (result bool)
+//@   modifies ptr
 //@   ensures !result ==> dec.err != nil
 
 //@ func (dec *Decoder) ExpectBodyFldOctets(ptr *uint32) (result bool)
+//@   modifies ptr
 //@   ensures !result ==> dec.err != nil
 
 //@ func (dec *Decoder) ExpectNumber64(ptr *int64) (result bool)
+//@   modifies ptr
 //@   ensures !result ==> dec.err != nil
 
 //@ func (dec *Decoder) ExpectModSeq(ptr *uint64) (result bool)
+//@   modifies ptr
 //@   ensures !result ==> dec.err != nil
 
 //@ func (dec *Decoder) ExpectAString(ptr *string) (result bool)
+//@   modifies ptr
 //@   ensures !result ==> dec.err != nil
 
 //@ func (dec *Decoder) ExpectString(ptr *string) (result bool)
+//@   modifies ptr
 //@   ensures !result ==> dec.err != nil
 
 //@ func (dec *Decoder) ExpectNString(ptr *string) (result bool)
+//@   modifies ptr
 //@   ensures !result ==> dec.err != nil
 
 //@ func (dec *Decoder) ExpectMailbox(ptr *string) (result bool)
+//@   modifies ptr
 //@   ensures !result ==> dec.err != nil
 
 //@ func (dec *Decoder) ExpectUID(ptr *imap.UID) (result bool)
+//@   modifies ptr
 //@   ensures !result ==> dec.err != nil
 
 // isUIDSet / isSeqSet: dynamic type of a number set.
@@ -128,6 +141,7 @@ func isSeqSet(s imap.NumSet) bool {
 }
 
 //@ func (dec *Decoder) ExpectNumSet(kind NumKind, ptr *imap.NumSet) (result bool)
+//@   modifies ptr
 //@   requires ptr != nil
 //@   ensures !result ==> dec.err != nil
 //@   ensures result && kind == NumKindUID ==> isUIDSet(*ptr)
@@ -168,7 +182,6 @@ func ValidQuotedSpec(utf8ok bool, s string) bool {
 
 //@ func (enc *Encoder) validQuoted(s string) (result bool)
 //@   props C18 C01
-//@   requires enc != nil
 //@   ensures result == ValidQuotedSpec(enc.QuotedUTF8, s)
 //@   loop 0 vars (i int)
 //@   loop 0 invariant 0 <= i && i <= len(s) && len(s) <= 4096
@@ -179,7 +192,6 @@ func ValidQuotedSpec(utf8ok bool, s string) bool {
 //
 //@ func (enc *Encoder) String(s string) (result *Encoder)
 //@   props C18:callsite,post,pre@call C01:callsite,post,pre@call
-//@   requires enc != nil
 //@   callsite Encoder.Quoted(e *Encoder, q string) requires ValidQuotedSpec(e.QuotedUTF8, q)
 
 // NonSyncAllowed: a client may send a non-synchronising literal of this size.
@@ -195,7 +207,6 @@ func NonSyncAllowed(enc *Encoder, size int64) bool {
 //
 //@ func (enc *Encoder) stringLiteral(s string)
 //@   props C18:callsite,post,pre@call C01:callsite,post,pre@call
-//@   requires enc != nil
 //@   callsite Encoder.Literal(e *Encoder, size int64, sync *ContinuationRequest) requires size == int64(len(s)) && (e.side == ConnSideClient && sync == nil ==> NonSyncAllowed(e, size))
 //@   ensures !__called("Encoder.Literal") ==> enc.err != nil
 
@@ -214,7 +225,6 @@ func isErrorWriter(w io.WriteCloser) bool {
 //
 //@ func (enc *Encoder) Literal(size int64, sync *ContinuationRequest) (result io.WriteCloser)
 //@   props C18:post,pre@call,callsite,panic-unreachable C01:post,pre@call,callsite
-//@   requires enc != nil
 //@   panics only if sync != nil && enc.side == ConnSideServer
 //@   ensures __called("ContinuationRequest.Wait") && __failed("ContinuationRequest.Wait") ==> isErrorWriter(result)
 //@   ensures sync != nil && !isErrorWriter(result) ==> __called("ContinuationRequest.Wait") && !__failed("ContinuationRequest.Wait")
@@ -241,19 +251,39 @@ func FlagGrammar(s string) bool {
 //
 //@ func (enc *Encoder) Flag(flag imap.Flag) (result *Encoder)
 //@   props C01:post,pre@call
-//@   requires enc != nil
 //@   ensures string(flag) != "\\*" && !FlagGrammar(string(flag)) ==> enc.err != nil && !__called("Encoder.writeString")
 
 //@ func (enc *Encoder) MailboxAttr(attr imap.MailboxAttr) (result *Encoder)
 //@   props C01:post,pre@call
-//@   requires enc != nil
 //@   ensures !(FlagGrammar(string(attr)) && string(attr)[0] == 92) ==> enc.err != nil && !__called("Encoder.writeString")
 
 //@ func (enc *Encoder) NumSet(numSet imap.NumSet) (result *Encoder)
 //@   props C01:post,pre@call
-//@   requires enc != nil && numSet != nil
 //@   ensures !__called("Encoder.writeString") ==> enc.err != nil
 
 //@ func (enc *Encoder) setErr(err error)
 //@   ensures err != nil ==> enc.err != nil
 //@   ensures old(enc.err) != nil ==> enc.err == old(enc.err)
+
+// Frames of the remaining decoder methods with an out-parameter.
+
+//@ func (dec *Decoder) Text(ptr *string) (result bool)
+//@   modifies ptr
+
+//@ func (dec *Decoder) Number(ptr *uint32) (result bool)
+//@   modifies ptr
+
+//@ func (dec *Decoder) Number64(ptr *int64) (result bool)
+//@   modifies ptr
+
+//@ func (dec *Decoder) ModSeq(ptr *uint64) (result bool)
+//@   modifies ptr
+
+//@ func (dec *Decoder) Quoted(ptr *string) (result bool)
+//@   modifies ptr
+
+//@ func (dec *Decoder) String(ptr *string) (result bool)
+//@   modifies ptr
+
+//@ func (dec *Decoder) Literal(ptr *string) (result bool)
+//@   modifies ptr
